@@ -92,4 +92,28 @@ PROPS = {
                       "specification is part of the engine refinement (EngineProofs, in progress); until then that step rests on "
                       "the correspondence check.",
     },
+    "C05": {
+        "runner": "Run05",
+        "theorems": ["C05_accepts_only_derivable", "C05_accepts_every_derivable", "C05_viable_prefixes",
+                     "C05_nullable_exact", "C05_allowed_lexemes_exact"],
+        "rule": "random CFGs (empty productions, left/right/mutual recursion, ambiguity) over non-confusable terminals "
+                "(literals with pairwise different first bytes, single-byte classes); every byte string over the grammar's "
+                "alphabet up to length 5 (thorough 7) explored as a DFS through the implementation's Matcher (pruned at "
+                "rejected prefixes, each rejected prefix still judged); complete-string verdicts compared with the "
+                "independent recogniser of coq/CfgSpec.v (fixpoint over spans, no Earley). "
+                "distinct = distinct grammar+string set; non-trivial = grammars with at least one accepted string",
+        "trusted_base": ["modelled, not verified: parser/src/earley/parser.rs scan / process_agenda / just_push_row, "
+                         "grammar.rs nullable computation (as coq/Earley.v)",
+                         "the byte-level glue (greedy lexer over non-confusable terminals = unique segmentation) is not proved; "
+                         "it is covered by the correspondence with CfgSpec (byte level) and by the engine sessions of C01/C02",
+                         "parametric rules and {m,n} on rules are not in this model (C09 covers repetition)"],
+        "assumptions": ["the front end wraps the start symbol so that it occurs on no right-hand side (wf_grammar); "
+                        "checked on the implementation by the accepting-state comparisons"],
+        "level_text": "Theorems for every well-formed grammar and every lexeme sequence: the single-pass Earley recogniser accepts "
+                      "exactly the derivable sequences (soundness and completeness, incl. nullable symbols and the "
+                      "completion-only-for-earlier-rows rule), continues exactly on viable prefixes, and offers the lexer exactly "
+                      "the lexemes after some dot. The implementation is compared byte-for-byte with an independent CFG recogniser "
+                      "on exhaustive small strings.",
+        "level_note": "Partial: lexeme level proved; bytes-to-lexemes glue and parametric rules rest on the correspondence check.",
+    },
 }
